@@ -61,6 +61,24 @@ type Chain struct {
 	// HookPanic holds the recovered value if Begin/EndBlock panicked
 	HookPanic interface{}
 	BlockStep time.Duration
+	// recording of everything fed to the application, for re-execution (C09)
+	GenesisBytes []byte
+	T0           time.Time
+	Ops          []Op
+}
+
+// Op is one ABCI call of a recorded run and what it returned.
+type Op struct {
+	Kind   int // 1 BeginBlock 2 DeliverTx 3 EndBlock 4 Commit
+	Height int64
+	Time   time.Time
+	Tx     []byte
+	Code   uint32
+	Data   []byte
+	GasW   int64
+	GasU   int64
+	Hash   []byte
+	Panic  bool
 }
 
 // TxResult is the projected DeliverTx outcome.
@@ -142,8 +160,40 @@ func NewOnDB(db dbm.DB, g Genesis) *Chain {
 		AppStateBytes:   stateBytes,
 	})
 	app.Commit()
-	c := &Chain{App: app, DB: db, Height: 1, Time: t0, Accounts: map[string]Account{}, BlockStep: 6 * time.Second}
+	c := &Chain{App: app, DB: db, Height: 1, Time: t0, Accounts: map[string]Account{}, BlockStep: 6 * time.Second, GenesisBytes: stateBytes, T0: t0}
 	return c
+}
+
+// Replay re-executes a recorded run on a fresh application instance and returns what each call returned.
+func Replay(genesis []byte, t0 time.Time, ops []Op) []Op {
+	app := newApp(dbm.NewMemDB())
+	app.InitChain(abci.RequestInitChain{Time: t0, Validators: []abci.ValidatorUpdate{}, ConsensusParams: sifapp.DefaultConsensusParams, AppStateBytes: genesis})
+	app.Commit()
+	out := make([]Op, len(ops))
+	for i, o := range ops {
+		r := o
+		r.Code, r.Data, r.GasW, r.GasU, r.Hash, r.Panic = 0, nil, 0, 0, nil, false
+		func() {
+			defer func() {
+				if rec := recover(); rec != nil {
+					r.Panic = true
+				}
+			}()
+			switch o.Kind {
+			case 1:
+				app.BeginBlock(abci.RequestBeginBlock{Header: tmproto.Header{Height: o.Height, Time: o.Time, ChainID: ""}})
+			case 2:
+				res := app.DeliverTx(abci.RequestDeliverTx{Tx: o.Tx})
+				r.Code, r.Data, r.GasW, r.GasU = res.Code, res.Data, res.GasWanted, res.GasUsed
+			case 3:
+				app.EndBlock(abci.RequestEndBlock{Height: o.Height})
+			case 4:
+				r.Hash = app.Commit().Data
+			}
+		}()
+		out[i] = r
+	}
+	return out
 }
 
 // Reopen builds a fresh application instance on the same DB (application restart from committed state).
@@ -182,10 +232,12 @@ func (c *Chain) BeginBlock() (panicked bool) {
 	c.Height++
 	c.Time = c.Time.Add(c.BlockStep)
 	c.InBlock = true
+	c.Ops = append(c.Ops, Op{Kind: 1, Height: c.Height, Time: c.Time})
 	defer func() {
 		if r := recover(); r != nil {
 			c.HookPanic = r
 			panicked = true
+			c.Ops[len(c.Ops)-1].Panic = true
 		}
 	}()
 	c.App.BeginBlock(abci.RequestBeginBlock{Header: c.header()})
@@ -193,10 +245,12 @@ func (c *Chain) BeginBlock() (panicked bool) {
 }
 
 func (c *Chain) EndBlock() (panicked bool) {
+	c.Ops = append(c.Ops, Op{Kind: 3, Height: c.Height})
 	defer func() {
 		if r := recover(); r != nil {
 			c.HookPanic = r
 			panicked = true
+			c.Ops[len(c.Ops)-1].Panic = true
 		}
 	}()
 	c.App.EndBlock(abci.RequestEndBlock{Height: c.Height})
@@ -206,6 +260,7 @@ func (c *Chain) EndBlock() (panicked bool) {
 func (c *Chain) Commit() []byte {
 	res := c.App.Commit()
 	c.InBlock = false
+	c.Ops = append(c.Ops, Op{Kind: 4, Height: c.Height, Hash: res.Data})
 	return res.Data
 }
 
@@ -247,6 +302,7 @@ func (c *Chain) Deliver(fee sdk.Coins, gas uint64, signers []Account, msgs ...sd
 		panic(err)
 	}
 	res := c.App.DeliverTx(abci.RequestDeliverTx{Tx: bz})
+	c.Ops = append(c.Ops, Op{Kind: 2, Height: c.Height, Tx: bz, Code: res.Code, Data: res.Data, GasW: res.GasWanted, GasU: res.GasUsed})
 	return TxResult{Code: res.Code, Codespace: res.Codespace, Log: res.Log, GasUsed: res.GasUsed, GasWanted: res.GasWanted, Data: res.Data, Events: res.Events}
 }
 
